@@ -1,2 +1,4 @@
+pub mod bin;
 pub mod pipe;
+pub mod runner;
 pub mod worker;
